@@ -136,7 +136,7 @@ def seg_bounds_ok(dom, pv, spec_K, M, N):
     for lo, hi, _ in pv.segs:
         rl, rh = dom.rat(lo), dom.rat(hi)
         if rl is None or rh is None:
-            return False
+            raise AnalysisError('chirp filter: the bounds of a stored segment are not followed (%r, %r)' % (lo, hi))
         got.add((rl.key(), rh.key()))
     return got == want
 
